@@ -5,6 +5,7 @@
 package main
 
 import (
+	"math"
 	"encoding/json"
 	"fmt"
 	"os"
@@ -623,6 +624,11 @@ func directed(r *rep.Report) {
 		{Op: "search", Pattern: map[string]interface{}{"a": "s1", "b": "??y"}},
 		{Op: "add", Id: "f4", Fact: map[string]interface{}{"a": "s1", "b": "here"}},
 		{Op: "search", Pattern: map[string]interface{}{"a": "s1", "b": "??y"}},
+		// JSON -0 decodes to a negative zero, which equals 0 for the matcher
+		{Op: "add", Id: "f5", Fact: map[string]interface{}{"z": math.Copysign(0, -1), "y": 0.0}},
+		{Op: "search", Pattern: map[string]interface{}{"z": 0.0}},
+		{Op: "search", Pattern: map[string]interface{}{"y": math.Copysign(0, -1)}},
+		{Op: "search", Pattern: map[string]interface{}{"z": "?v", "y": math.Copysign(0, -1)}},
 	} {
 		step(r, locs, m, &run, o, written, gi)
 	}
